@@ -10,7 +10,7 @@ Open Scope N_scope.
 
 (* ====================================================================================================
    1. metadata certificates: Model/CertSelect.v md_certs (C03, C08, C10, C17)  vs  Model/MdStore.v
-      store_certs (C16).  [abs_store num st]: the C16 store st as a CertSelect store - per entity one
+      store_certs (C16), both following the library + proposed_fix/C03-1.  [abs_store num st]: the C16 store st as a CertSelect store - per entity one
       key-descriptor group per descriptor TYPE in the order certs(.., any, ..) visits them, certificate
       texts numbered by num after repack_cert. *)
 Module G1.
@@ -22,8 +22,26 @@ Theorem Glue_getitem_agrees :
 Proof. exact find_entity_abs_store. Qed.
 Print Assumptions Glue_getitem_agrees.
 
-(* whenever C16's certs() answers, C03's md_certs answers the same list: same certificates, same order, same
-   duplicates dropped (num injective on the texts of the served entity) *)
+(* MetaData.certs(.., any, ..) in C03's and in C16's model is ONE function: same certificates, same order, same
+   duplicates dropped, KeyError (unknown entity) there = None here - for every store, entity and use (num injective on
+   the texts of the served entity; Glue_md_certs_eq_canonical: no hypothesis).  Both models follow the library with
+   proposed_fix/C03-1. *)
+Theorem Glue_md_certs_eq :
+  forall num st i use,
+    inj_on (served_text st i) num ->
+    CS.md_certs (abs_store num st) (Some i) use =
+    match MS.store_certs st i ANY use with Ok l => Some (map num l) | Err _ => None end.
+Proof. exact md_certs_eq. Qed.
+Print Assumptions Glue_md_certs_eq.
+
+(* the numbering "position in the list of all certificate texts of the store" always qualifies *)
+Theorem Glue_md_certs_eq_canonical :
+  forall st i use,
+    CS.md_certs (abs_store (num_of (store_texts st)) st) (Some i) use =
+    match MS.store_certs st i ANY use with Ok l => Some (map (num_of (store_texts st)) l) | Err _ => None end.
+Proof. exact md_certs_eq_canonical. Qed.
+Print Assumptions Glue_md_certs_eq_canonical.
+
 Theorem Glue_md_certs_agree :
   forall num st i use l,
     inj_on (served_text st i) num ->
@@ -32,7 +50,6 @@ Theorem Glue_md_certs_agree :
 Proof. exact md_certs_agree. Qed.
 Print Assumptions Glue_md_certs_agree.
 
-(* the numbering "position in the list of all certificate texts of the store" always qualifies *)
 Theorem Glue_md_certs_agree_canonical :
   forall st i use l,
     MS.store_certs st i ANY use = Ok l ->
@@ -49,50 +66,74 @@ Theorem Glue_md_certs_unknown :
 Proof. exact md_certs_unknown. Qed.
 Print Assumptions Glue_md_certs_unknown.
 
-(* the only other way certs() fails, exactly; there md_certs still answers: the models DISAGREE *)
+(* certs(.., any, ..) fails for an unknown entity only *)
 Theorem Glue_md_certs_keyerror :
   forall num st i use x,
     MS.store_certs st i ANY use = Err x ->
-    x = MS.KeyError /\
-    (MS.store_get st i = None \/
-     exists e r k, MS.store_get st i = Some e /\ In r (MS.e_roles e) /\ any_role r /\ In k (MS.r_keys r) /\
-                   MS.use_ok use k = true /\ MS.kd_certs k = [] /\
-                   exists l', CS.md_certs (abs_store num st) (Some i) use = Some l').
+    x = MS.KeyError /\ MS.store_get st i = None /\ CS.md_certs (abs_store num st) (Some i) use = None.
 Proof. exact md_certs_keyerror. Qed.
 Print Assumptions Glue_md_certs_keyerror.
 
-(* ... with a witness and its consequences for _check_signature (store_check_signature: the selection over the
-   C16 store with the KeyError swallowed as sigver.py does).  The library behaves as the left-hand sides say. *)
-Theorem Glue_md_certs_disagreement_witness :
-  MS.store_certs ex_bad (s2l "A") ANY MS.U_SIGNING = Err MS.KeyError /\
-  CS.md_certs (abs_store ex_num ex_bad) (Some (s2l "A")) CS.SIGNING = Some [1] /\
-  store_check_signature ex_num true ex_bad (Some (s2l "A")) true [1] 1 = Err (s2l "MissingKey") /\
-  CS.check_signature true (abs_store ex_num ex_bad) (Some (s2l "A")) true [1] 1 = Ok tt /\
-  store_check_signature ex_num true ex_bad (Some (s2l "A")) false [9] 9 = Ok tt /\
-  CS.check_signature true (abs_store ex_num ex_bad) (Some (s2l "A")) false [9] 9 = Err (s2l "SignatureError").
-Proof. exact md_certs_keyerror_disagreement. Qed.
-Print Assumptions Glue_md_certs_disagreement_witness.
-
-(* under the side condition (every key descriptor certs() would read has X509Data) the two are ONE function, and so
-   are the certificate selection and the verdict of _check_signature *)
-Theorem Glue_md_certs_eq :
-  forall num st i use,
-    inj_on (served_text st i) num -> x509_complete use st i ->
-    CS.md_certs (abs_store num st) (Some i) use =
-    match MS.store_certs st i ANY use with Ok l => Some (map num l) | Err _ => None end.
-Proof. exact md_certs_eq. Qed.
-Print Assumptions Glue_md_certs_eq.
-
+(* ... and so are the certificate selection and the verdict of _check_signature (store_check_signature: the selection
+   over the C16 store with the KeyError swallowed as sigver.py does) *)
 Theorem Glue_check_signature_agrees :
   forall num mp st issuer only_md embedded signer,
-    (forall i, issuer = Some i -> inj_on (served_text st i) num /\ x509_complete CS.SIGNING st i) ->
+    (forall i, issuer = Some i -> inj_on (served_text st i) num) ->
     store_candidate_certs num mp st issuer only_md embedded = CS.candidate_certs mp (abs_store num st) issuer only_md embedded /\
     store_check_signature num mp st issuer only_md embedded signer =
       CS.check_signature mp (abs_store num st) issuer only_md embedded signer.
 Proof. exact store_check_agrees. Qed.
 Print Assumptions Glue_check_signature_agrees.
 
-(* membership in md_certs of an abstracted store, in C16's words - no side condition *)
+Theorem Glue_check_signature_agrees_canonical :
+  forall mp st issuer only_md embedded signer,
+    let num := num_of (store_texts st) in
+    store_candidate_certs num mp st issuer only_md embedded = CS.candidate_certs mp (abs_store num st) issuer only_md embedded /\
+    store_check_signature num mp st issuer only_md embedded signer =
+      CS.check_signature mp (abs_store num st) issuer only_md embedded signer.
+Proof. exact store_check_agrees_canonical. Qed.
+Print Assumptions Glue_check_signature_agrees_canonical.
+
+(* HISTORY (the former disagreement, now the effect of proposed_fix/C03-1).  Before the repair certs() raised KeyError
+   in exactly one more case: a use-matching KeyDescriptor of the served entity without X509Data - although the entity
+   declares certificates (md_certs answers) ... *)
+Theorem Glue_md_certs_before_fix_keyerror :
+  forall num st i use x,
+    MS.store_certs_before_fix st i ANY use = Err x ->
+    x = MS.KeyError /\
+    (MS.store_get st i = None \/
+     exists e r k, MS.store_get st i = Some e /\ In r (MS.e_roles e) /\ any_role r /\ In k (MS.r_keys r) /\
+                   MS.use_ok use k = true /\ MS.kd_certs k = [] /\
+                   exists l', CS.md_certs (abs_store num st) (Some i) use = Some l').
+Proof. exact md_certs_before_fix_keyerror. Qed.
+Print Assumptions Glue_md_certs_before_fix_keyerror.
+
+(* ... under the side condition (every key descriptor certs() would read has X509Data) the repair changes nothing ... *)
+Theorem Glue_store_certs_before_fix_complete :
+  forall st i use, x509_complete use st i -> MS.store_certs_before_fix st i ANY use = MS.store_certs st i ANY use.
+Proof. exact store_certs_before_fix_complete. Qed.
+Print Assumptions Glue_store_certs_before_fix_complete.
+
+(* ... and the witness with its consequences for _check_signature (the unpatched library behaves as the _before_fix
+   lines say, the patched one as the others: harness/glue_probe.py): the declared key 1 refused with MissingKey under
+   the default setting; any embedded key (9) accepted with the setting off although metadata holds a signing key *)
+Theorem Glue_md_certs_before_fix_witness :
+  MS.store_certs_before_fix ex_bad (s2l "A") ANY MS.U_SIGNING = Err MS.KeyError /\
+  MS.store_certs ex_bad (s2l "A") ANY MS.U_SIGNING = Ok [cert_a] /\
+  CS.md_certs (abs_store ex_num ex_bad) (Some (s2l "A")) CS.SIGNING = Some [1] /\
+  CS.md_certs_before_fix (abs_store ex_num ex_bad) (Some (s2l "A")) CS.SIGNING = None /\
+  store_check_signature_before_fix ex_num true ex_bad (Some (s2l "A")) true [1] 1 = Err (s2l "MissingKey") /\
+  CS.check_signature_before_fix true (abs_store ex_num ex_bad) (Some (s2l "A")) true [1] 1 = Err (s2l "MissingKey") /\
+  store_check_signature ex_num true ex_bad (Some (s2l "A")) true [1] 1 = Ok tt /\
+  CS.check_signature true (abs_store ex_num ex_bad) (Some (s2l "A")) true [1] 1 = Ok tt /\
+  store_check_signature_before_fix ex_num true ex_bad (Some (s2l "A")) false [9] 9 = Ok tt /\
+  CS.check_signature_before_fix true (abs_store ex_num ex_bad) (Some (s2l "A")) false [9] 9 = Ok tt /\
+  store_check_signature ex_num true ex_bad (Some (s2l "A")) false [9] 9 = Err (s2l "SignatureError") /\
+  CS.check_signature true (abs_store ex_num ex_bad) (Some (s2l "A")) false [9] 9 = Err (s2l "SignatureError").
+Proof. exact md_certs_before_fix_witness. Qed.
+Print Assumptions Glue_md_certs_before_fix_witness.
+
+(* membership in md_certs of an abstracted store, in C16's words *)
 Theorem Glue_md_certs_members :
   forall num st i use l x,
     CS.md_certs (abs_store num st) (Some i) use = Some l ->
